@@ -42,7 +42,8 @@ class FFTWrapper:
         else:
             self._inshape = tuple(kshape)
             self._outshape = tuple(rshape)
-        dims = np.asarray(dims, dtype=np.int32)
+        # the C routine reads len(dims) contiguous C ints
+        dims = np.ascontiguousarray(dims, dtype=np.int32)
         self._ptr = ctypes.c_void_p(
             libfft.allocate_fftnd_plan(
                 ctypes.c_int(len(dims)),
